@@ -55,6 +55,9 @@ theorem startIfReady_legal (c : Cfg) (s : State) (id i : Nat) (bypass : Bool) :
 theorem hStartStage_legal (c : Cfg) (s : State) (id i retry : Nat) :
     EffAll LegalEff s (hStartStage c s id i retry).flatten := by
   unfold hStartStage
+  split
+  · trivial
+  unfold hStartStageCore
   simp only []
   split
   · exact startIfReady_legal ..
@@ -99,21 +102,29 @@ theorem processResult_legal (c : Cfg) (s : State) (id i t n : Nat) (oc : Outcome
   case transient => trivial
   all_goals exact effAll_write_then_quietB _ _ _ (legal_same_status s i _ rfl rfl) (by quiet_tac2)
 
+theorem runTaskGuard_quiet (s : State) (id i t : Nat) (txns : List Txn) (h : runTaskGuard s id i t = some txns) :
+    txns.flatten.all Eff.quiet = true := by
+  unfold runTaskGuard at h
+  simp only [] at h
+  (repeat' split at h) <;> simp at h <;> subst h <;> simp [Eff.quiet]
+
+theorem runTaskCommit_legal (c : Cfg) (s : State) (id i t a n : Nat) (oc : Outcome) :
+    EffAll LegalEff s (runTaskCommit c (s.stage i) id i t a n oc).flatten := by
+  unfold runTaskCommit
+  split
+  · simp only []
+    split
+    · exact effAll_quietB _ _ (by quiet_tac2)
+    · simp only [List.flatten_cons, List.flatten_nil, List.append_nil]
+      exact effAll_write_then_quietB _ _ _ (legal_same_status s i _ rfl rfl) (by quiet_tac2)
+  · exact processResult_legal ..
+
 theorem hRunTask_legal (c : Cfg) (s : State) (id i t a : Nat) :
     EffAll LegalEff s (hRunTask c s id i t a).1.flatten := by
   unfold hRunTask
-  simp only []
   split
-  · exact effAll_quietB _ _ (by quiet_tac2)
-  · split
-    · exact effAll_quietB _ _ (by quiet_tac2)
-    · split
-      · exact effAll_quietB _ _ (by quiet_tac2)
-      · split
-        · split
-          · exact effAll_quietB _ _ (by quiet_tac2)
-          · simp only [List.flatten_cons, List.flatten_nil, List.append_nil]
-            exact effAll_write_then_quietB _ _ _ (legal_same_status s i _ rfl rfl) (by quiet_tac2)
-        · exact processResult_legal ..
+  · rename_i txns hg
+    exact effAll_quietB _ _ (runTaskGuard_quiet s id i t txns hg)
+  · exact runTaskCommit_legal ..
 
 end Stab.Engine
